@@ -285,7 +285,7 @@ def reparse_rule(ctx: Ctx, RULE: str = "R11.7"):
     (a second definition parsing the raw packets of a headers-only pass; a user re-parsing err.partial_data.raw_data)
     gives the same result and leaves the raw packet's own cursor untouched."""
     prog = ctx.prog
-    from ..harness import Harness
+    from ..harness import Harness, cursor
     from ..models import source_externals, ccsds_bytes
     from ..interp import BytesObj
     site = "packets.py::CCSDSPacket.__init__::cursor-not-shared"
@@ -296,7 +296,7 @@ def reparse_rule(ctx: Ctx, RULE: str = "R11.7"):
         k1, v1 = h.outcome("p.raw_data.read_as_int(16)", "packets.py", p=p1)
         p2 = h.ev("CCSDSPacket(raw_data=raw)", "packets.py", raw=raw)
         k2, v2 = h.outcome("p.raw_data.read_as_int(16)", "packets.py", p=p2)
-        pos_raw = raw.attrs.get("pos", 0)
+        pos_raw = cursor(h, raw)
         same_obj = p1.attrs.get("raw_data") is raw or p2.attrs.get("raw_data") is p1.attrs.get("raw_data")
         ok = k1 == "ok" and k2 == "ok" and v1 == v2 and pos_raw == 0 and not same_obj
         ctx.decide(ok, RULE, site, "each parsed packet owns a fresh cursor",
